@@ -322,6 +322,12 @@ func (w *World) end(op *OpRec) {
 func (w *World) guard(op *OpRec, fn func()) {
 	defer func() {
 		if r := recover(); r != nil {
+			if ip, ok := r.(InjectedPanic); ok {
+				// an injected fault that unwound the call: for the oracles the operation failed under a fault
+				op.InjPanic = true
+				op.Err = fmt.Errorf("%w: %v", errInjected, ip)
+				return
+			}
 			op.Panic = fmt.Sprintf("%v @ %s", r, panicSite(string(debug.Stack())))
 		}
 	}()
